@@ -169,6 +169,18 @@ CHECKS["C15"] = dict(
     technique="SMT (z3, linear real arithmetic over symbolic integrands) validation of integral regrouping",
     design="§4 C15", engine="E1")
 
+TABLE_NOTE = ("Trusted base: vlib/tables.py (SMT-LIB encoding of the relation tables) and z3. The tables are produced "
+              "on every run by calling the real operators on every element / pair of the stated finite carrier; the "
+              "claim is for that carrier.")
+CHECKS["C26"] = dict(
+    level="model_checking",
+    text="Count/dimension tables of every named cell and the '<' / '==' tables of named + tensor-product cells "
+         "(total dimension <= 3) are produced by the real methods; z3 proves, over symbolic indices into the tables, "
+         "the Euler characteristic, sub-entity dimension/count/type consistency (also of the sub-entities themselves), "
+         "facet/ridge/peak arithmetic and the strict-total-order axioms; a model is a concrete cell tuple.",
+    technique="SMT (z3, integer tables) check of order and topology axioms over relation tables regenerated from the real code",
+    design="§4 C26", engine="E3", note=TABLE_NOTE)
+
 NOT_APPLICABLE = {
     "C11": "Signature injectivity is injectivity of string renderings (repr/str, numpy array printing, float "
            "formatting) composed with sha512: CrossHair cannot confirm it, z3/cvc5 string theories answer unknown, "
